@@ -49,7 +49,7 @@ def ParseOut.obs : ParseOut → String
   | .error e =>
     "ERR " ++ e.variant ++ " " ++ fieldHex e.fields 0 ++ " " ++ fieldHex e.fields 1 ++ " "
       ++ fieldHex e.fields 2 ++ " " ++ hexOfText e.display
-  | .panic s => "PANIC " ++ String.ofList s
+  | .panic _ => "PANIC parse"
 
 end FV
 
@@ -83,7 +83,7 @@ def ioMapStr : Option (List (Nat × Target)) → String
 /-- Observation of compile + renders, in the harness's format (clock fields copied). -/
 def compileObs (t0 t1 : String) (clk : Nat → Nat) (e : Expr) (o : RunOptions) (paths : List Text) : String :=
   match compile clk e o with
-  | .panic s => "PANIC compile " ++ String.ofList s
+  | .panic _ => "PANIC compile"
   | .err x => "CERR " ++ x.variant ++ " " ++ hexOfText x.payload ++ " - - " ++ hexOfText x.display
   | .ok c =>
     let m := ioMapStr c.ioMap
